@@ -1545,6 +1545,12 @@ MUTANTS += [
     M('periodic-set-not-handed-on', S, "                        periodic=self.periodic,\n", "", 'C16'),
     M('n-eff-zero-when-some-shell-is-empty', S, "        if np.all(self.shell_n_eff == 0):\n            return 0\n",
       "        if np.any(self.shell_n_eff == 0):\n            return 0\n", 'C02'),
+    M('split-candidate-argmin', U, "        index = np.argmax(np.where(~self.block, self.log_v_all, -np.inf))",
+      "        index = np.argmin(np.where(~self.block, self.log_v_all, -np.inf))", 'C13'),
+    M('top-up-only-when-both-small', U, "        if not np.all(n_labels >= self.n_points_min):",
+      "        if not np.any(n_labels >= self.n_points_min):", 'C13'),
+    M('top-up-fills-the-larger-cluster', U, "            label = np.argmin(n_labels)\n",
+      "            label = np.argmax(n_labels)\n", 'C13'),
     M('prune-guard-all-empty', S, "                    if np.any(self.shell_n == 0):\n",
       "                    if np.all(self.shell_n == 0):\n", 'C12'),
 ]
@@ -1572,6 +1578,13 @@ BENIGN += [
     dict(id='n-eff-zero-guard-not-any-positive', file=S,
          old="        if np.all(self.shell_n_eff == 0):\n            return 0\n",
          new="        if not np.any(self.shell_n_eff > 0):\n            return 0\n", props=ALL.split()),
+    dict(id='split-candidate-argmin-of-negated', file=U,
+         old="        index = np.argmax(np.where(~self.block, self.log_v_all, -np.inf))",
+         new="        index = np.argmin(np.where(~self.block, -self.log_v_all, np.inf))",
+         props=ALL.split()),
+    dict(id='top-up-trigger-any-below', file=U,
+         old="        if not np.all(n_labels >= self.n_points_min):",
+         new="        if np.any(n_labels < self.n_points_min):", props=ALL.split()),
     dict(id='prune-guard-any-method', file=S,
          old="                    if np.any(self.shell_n == 0):\n",
          new="                    if (self.shell_n == 0).any():\n", props=ALL.split()),
